@@ -408,6 +408,14 @@ class Router:
         coord1 = (area.latitude / 10000000, area.longitude / 10000000)
         coord2 = (lat / 10000000, lon / 10000000)
         x_distance, y_distance = Router.calculate_distance(coord1, coord2)
+        if area.angle:
+            # EN 302 931: a (long side / semi-major axis) points in the direction of the azimuth
+            # angle, measured clockwise from north; express the point in the area's own axes.
+            azimuth = math.radians(area.angle)
+            x_distance, y_distance = (
+                x_distance * math.cos(azimuth) - y_distance * math.sin(azimuth),
+                x_distance * math.sin(azimuth) + y_distance * math.cos(azimuth),
+            )
         if area_type in (GeoBroadcastHST.GEOBROADCAST_CIRCLE, GeoAnycastHST.GEOANYCAST_CIRCLE):
             return 1 - (x_distance / area.a) ** 2 - (y_distance / area.a) ** 2
         if area_type in (GeoBroadcastHST.GEOBROADCAST_ELIP, GeoAnycastHST.GEOANYCAST_ELIP):
